@@ -993,7 +993,16 @@ void Analyser::AnalyserImpl::analyseNode(const XmlNodePtr &node,
         // Token elements.
 
     } else if (node->isMathmlElement("ci")) {
-        auto variableName = node->firstChild()->convertToStrippedString();
+        // Note: the name of the variable is the first child that is not a
+        //       comment.
+
+        auto nameNode = node->firstChild();
+
+        while ((nameNode != nullptr) && nameNode->isComment()) {
+            nameNode = nameNode->next();
+        }
+
+        auto variableName = (nameNode != nullptr) ? nameNode->convertToStrippedString() : std::string();
         auto variable = component->variable(variableName);
         // Note: we always have a variable. Indeed, if we were not to have one,
         //       it would mean that `variableName` is the name of a variable
@@ -1863,12 +1872,32 @@ double Analyser::AnalyserImpl::powerValue(const AnalyserEquationAstPtr &ast,
             return NAN;
         }
 
+        // Note: the initial value may be a reference to a variable or a number
+        //       that is out of range, in which case we don't have a value.
+
+        double value;
+
+        if (!convertToDouble(initialValue, value)) {
+            powerData.mExponentValueAvailable = false;
+
+            return NAN;
+        }
+
         powerData.mExponentValueChangeable = true;
 
-        return std::stod(initialValue);
+        return value;
     }
-    case AnalyserEquationAst::Type::CN:
-        return std::stod(ast->value());
+    case AnalyserEquationAst::Type::CN: {
+        double value;
+
+        if (!convertToDouble(ast->value(), value)) {
+            powerData.mExponentValueAvailable = false;
+
+            return NAN;
+        }
+
+        return value;
+    }
 
         // Qualifier elements.
 
